@@ -114,6 +114,35 @@ def _argument_change(state):
     return None
 
 
+class GlobalStateChanged(Exception):
+    """Reported (as a Raised value) when a library call left interpreter-wide settings different from what it found:
+    numpy's error handling and print options, the warnings filter list, the decimal context, the recursion limit, the
+    thread switch interval, the working directory, or - for functions that are not documented as randomised - the
+    state of numpy's or the standard library's global random generators."""
+
+
+_RANDOMISED = {"create_random_shuffles", "approximate_capacity", "remove_nasty_arc"}
+
+
+def _global_state(function):
+    import decimal
+    import random
+    import warnings
+    import numpy
+    state = {"numpy.geterr": repr(sorted(numpy.geterr().items())),
+             "numpy print options": repr(sorted((k, repr(v)) for k, v in numpy.get_printoptions().items())),
+             "warnings.filters": len(warnings.filters),
+             "decimal context": repr(decimal.getcontext()),
+             "recursion limit": sys.getrecursionlimit(),
+             "switch interval": sys.getswitchinterval(),
+             "working directory": os.getcwd()}
+    if getattr(function, "__name__", "") not in _RANDOMISED:
+        kind, keys, position = numpy.random.get_state()[:3]
+        state["numpy.random state"] = (kind, position, int(keys[0]), int(keys[-1]), int(keys.sum()))
+        state["random state"] = hash(random.getstate())
+    return state
+
+
 class ResultNotReproducible(Exception):
     """Reported (as a Raised value) when the same call on the same arguments gives a different result after the
     caller overwrote its own copy of the first result - i.e. the library handed out shared or cached state."""
@@ -240,6 +269,7 @@ def lib_call(function, *args, **kwargs):
     sys.stdout = sink
     watched = [] if getattr(function, "__name__", "") == "remove_nasty_arc" else \
         _argument_state(list(args) + list(kwargs.values()))
+    settings_before = _global_state(function)
     try:
         try:
             if CASE_IN_THREAD and threaded and sys.gettrace() is None:
@@ -256,6 +286,11 @@ def lib_call(function, *args, **kwargs):
         changed = _argument_change(watched)
         if changed:
             return Raised(ArgumentChanged(changed))
+        settings_after = _global_state(function)
+        if settings_after != settings_before:
+            which = [k for k in settings_before if settings_before[k] != settings_after.get(k)]
+            return Raised(GlobalStateChanged("the call changed interpreter-wide state: %s (now %s)" % (
+                ", ".join(which), "; ".join(str(settings_after[k])[:80] for k in which))))
         import numpy
         if not twice or not isinstance(first, (numpy.ndarray, list, dict, tuple)):
             return first
